@@ -1318,6 +1318,11 @@ def instances(tier: str) -> List[Tuple[str, tuple, dict, Callable[..., Callable[
     I += [("masyu", (3, 3, [[0, 0, 0], [0, 0, 0], [0, 0, 0]]), {}, rule_masyu),
           ("masyu", (3, 3, [[2, 0, 0], [0, 0, 0], [0, 1, 0]]), {}, rule_masyu),
           ("masyu", (3, 3, [[0, 1, 0], [0, 0, 0], [0, 0, 0]]), {}, rule_masyu)]
+    # a black circle in each corner (every pair of arm directions), a white circle with room to run straight on both sides (two-row boards)
+    I += [("masyu", (3, 3, [[0, 0, 2], [0, 0, 0], [0, 0, 0]]), {}, rule_masyu), ("masyu", (3, 3, [[0, 0, 0], [0, 0, 0], [2, 0, 0]]), {}, rule_masyu),
+          ("masyu", (3, 3, [[0, 0, 0], [0, 0, 0], [0, 0, 2]]), {}, rule_masyu),
+          ("masyu", (2, 5, [[0, 0, 1, 0, 0], [0, 0, 0, 0, 0]]), {}, rule_masyu), ("masyu", (5, 2, [[0, 0], [0, 0], [0, 1], [0, 0], [0, 0]]), {}, rule_masyu),
+          ("masyu", (2, 5, [[0, 0, 0, 0, 0], [0, 1, 0, 1, 0]]), {}, rule_masyu)]
     if deep:
         # black circles away from the corner need a 3x4 lattice (17 edges): thorough tier only
         I += [("masyu", (3, 4, [[2, 0, 0, 0], [0, 0, 0, 1], [0, 0, 0, 0]]), {}, rule_masyu), ("masyu", (4, 3, [[0, 0, 2], [1, 0, 0], [0, 0, 0], [0, 0, 0]]), {}, rule_masyu),
